@@ -22,11 +22,6 @@ theorem splitWs_go_space (s : UInt8) (hs : isSpace s = true) (cur : Bytes) (acc 
   conv => lhs; unfold splitWs.go
   simp [hs]
 
-/-- tokens each followed by one whitespace byte -/
-def sepJoin : List (Bytes × UInt8) → Bytes
-  | [] => []
-  | (t, s) :: rest => t ++ s :: sepJoin rest
-
 theorem splitWs_go_sepJoin (l : List (Bytes × UInt8)) (acc : List Bytes)
     (h : ∀ p ∈ l, p.1 ≠ [] ∧ NoSpace p.1 ∧ isSpace p.2 = true) :
     splitWs.go [] acc (sepJoin l) = acc.reverse ++ l.map (·.1) := by
@@ -78,11 +73,6 @@ theorem splitOn_go_sep (sep : UInt8) (cur : Bytes) (acc : List Bytes) (rest : By
 theorem splitOn_go_end (sep : UInt8) (cur : Bytes) (acc : List Bytes) :
     splitOn.go sep cur acc [] = (cur.reverse :: acc).reverse := by
   unfold splitOn.go; rfl
-
-def joinSep (sep : UInt8) : List Bytes → Bytes
-  | [] => []
-  | [p] => p
-  | p :: q :: rest => p ++ sep :: joinSep sep (q :: rest)
 
 theorem splitOn_go_joinSep (sep : UInt8) (ps : List Bytes) (hne : ps ≠ []) (hps : ∀ p ∈ ps, NoByte sep p)
     (acc : List Bytes) : splitOn.go sep [] acc (joinSep sep ps) = acc.reverse ++ ps := by
